@@ -21,6 +21,7 @@ from .values import (
     JSBoundMethod,
     to_string,
     to_number,
+    js_pow,
 )
 from .errors import JSError, MemoryLimitError, TimeLimitError
 
@@ -528,7 +529,7 @@ class Context:
         def pow_fn(*args):
             x = to_number(args[0]) if args else float("nan")
             y = to_number(args[1]) if len(args) > 1 else float("nan")
-            return math.pow(x, y)
+            return js_pow(x, y)
 
         def sqrt_fn(*args):
             x = to_number(args[0]) if args else float("nan")
